@@ -1612,6 +1612,13 @@ class H2Connection:
         self.state_machine.process_input(ConnectionInputs.SEND_GOAWAY)
         self._prepare_for_sending([f])
 
+        # The connection is over: whatever input is still buffered (the frame
+        # that could not be parsed, the rest of the chunk, a partial header
+        # block) will never be used. Holding on to it lets the buffer grow
+        # with everything that is received from now on.
+        self.incoming_buffer.data = b''
+        self.incoming_buffer._headers_buffer = []
+
     def _receive_headers_frame(self, frame):
         """
         Receive a headers frame on the connection.
